@@ -38,3 +38,33 @@ Fixpoint llvm_number (l : list item) (k : Z) : list item :=
   | x :: r => if it_value x && negb (it_named x) then set_id x k :: llvm_number r (k + 1)
               else x :: llvm_number r k
   end.
+
+(* ---- module level ----
+   asm/module.go indexTopLevelEntities numbers the unnamed global variables, aliases, ifuncs and
+   functions with one counter in TEXTUAL order (giveUnnamedIdentID overwrites whatever ID the text
+   gave); ir/module.go AssignGlobalIDs re-validates, at print time, in GROUP order: all global
+   variables, then aliases, then ifuncs, then functions. *)
+Inductive gkind := KGlobal | KAlias | KIFunc | KFunc.
+Definition gkind_eqb (a b : gkind) : bool :=
+  match a, b with KGlobal, KGlobal | KAlias, KAlias | KIFunc, KIFunc | KFunc, KFunc => true | _, _ => false end.
+Record gent := { g_kind : gkind; g_item : item }.
+
+Fixpoint parser_number (l : list gent) (k : Z) : list gent :=
+  match l with
+  | [] => []
+  | g :: r => if negb (it_named (g_item g))
+              then {| g_kind := g_kind g; g_item := set_id (g_item g) k |} :: parser_number r (k + 1)
+              else g :: parser_number r k
+  end.
+Definition of_gkind (k : gkind) (l : list gent) : list gent := filter (fun g => gkind_eqb (g_kind g) k) l.
+Definition group_order (l : list gent) : list gent :=
+  of_gkind KGlobal l ++ of_gkind KAlias l ++ of_gkind KIFunc l ++ of_gkind KFunc l.
+(* asm/translate.go addGlobalEntitiesToModule (after fix 'renumber unnamed globals in printer order'):
+   the module holds four slices (the textual order restricted to each kind); the unnamed definitions
+   are renumbered walking the slices in the printer's order.  The result is the concatenation of the
+   four slices, which is also what AssignGlobalIDs walks at print time. *)
+Definition parse_module (l : list gent) : list gent := parser_number (group_order (parser_number l 0)) 0.
+Definition print_after_parse (l : list gent) : outcome (list item) := assign_ids (map g_item (parse_module l)).
+(* the same before the fix (no renumbering), kept to state what was wrong *)
+Definition print_after_parse_unfixed (l : list gent) : outcome (list item) :=
+  assign_ids (map g_item (group_order (parser_number l 0))).
